@@ -264,6 +264,13 @@ def run_case(inp):
         centres = [r.normal(size=shape) * 4.0 for _ in range(g)]
         order = r.permutation(g * per)
         truth = (np.arange(g * per) % g)[order]
+        if inp.get("sizes"):
+            # unbalanced, hierarchically spaced groups: rare kinds ~10 noise sigmas apart, an abundant kind far away
+            sizes = [int(v) for v in inp["sizes"]]
+            u = r.normal(size=shape)
+            u /= np.linalg.norm(u)
+            centres = [centres[0] + (3.0 * j) * u for j in range(g - 1)] + [centres[0] + 40.0 * np.roll(u.reshape(-1), 7).reshape(shape)]
+            truth = r.permutation(np.repeat(np.arange(g), sizes))
         stack = np.stack([centres[t] + 0.3 * r.normal(size=shape) for t in truth]).astype(np.float32)
         try:
             with warnings.catch_warnings():
@@ -387,6 +394,9 @@ def oracle(rng, thorough, deep=False, hints=None):
         per = int(rng.integers(4, 9))
         cases.append(dict(kind="clusters", shape=[4, 5, 4], groups=g, per=per, seed=int(rng.integers(0, 10 ** 6)),
                           kseed=int(rng.integers(0, 100)), chunks=[int(rng.integers(1, g * per + 1)), 4, 5, int(rng.integers(1, 5))]))
+    for i in range(6 if big else 2):
+        cases.append(dict(kind="clusters", shape=[4, 5, 4], groups=3, per=0, sizes=[4, 4, [110, 60][i % 2]], seed=int(rng.integers(0, 10 ** 6)),
+                          kseed=[0, 3, 1, 4, 5, 2][i % 6], chunks=[int(rng.integers(20, 119)), 4, 5, 4]))
     for i in range(4 if big else 2):
         cases.append(dict(kind="classify", n=int(rng.integers(6, 11)), scale=float(rng.choice([1.0, 0.5])),
                           seed=int(rng.integers(0, 10 ** 6)), label_name=["cluster", "my-class"][i % 2],
